@@ -15,6 +15,9 @@
 #[path = "../../corpus/basic.rs"]
 pub mod basic;
 
+#[path = "../../corpus/optional.rs"]
+pub mod optional;
+
 #[cfg(kani)]
 #[path = "../../corpus/basic_names_h.rs"]
 pub mod basic_names_h;
@@ -166,6 +169,51 @@ mod h {
         }
         kani::cover!(sel == 4, "bool argument");
         kani::cover!(sel == 5, "interface query with digits in its name");
+    }
+
+    /// `Option` arguments: the entry is present and holds the argument's own encoding (`null` for
+    /// `None`); on the way in a missing or null entry is `None`.
+    #[kani::proof]
+    #[kani::unwind(9)]
+    fn ser_dec_option() {
+        use crate::optional::op::sv as op;
+        use support::rec::{K_END, K_FIELD, K_NULL, K_STRUCT, K_STRUCT_VARIANT, K_U64};
+        use support::sym::str_eq;
+        let x: u64 = kani::any();
+        let p: u64 = kani::any();
+        let some: bool = kani::any();
+        let o = if some { Some(x) } else { None };
+        // exec: {"opt_arg": {"o": x | null, "p": p}}
+        match record(&op::ExecMsg::OptArg { o, p }) {
+            Ok(r) => {
+                assert!(r.n == 6 && r.ev[0].k == K_STRUCT_VARIANT && str_eq(r.ev[0].s, "opt_arg") && r.ev[0].num == 2, "one entry per handler argument");
+                assert!(r.ev[1].k == K_FIELD && str_eq(r.ev[1].s, "o"));
+                if some {
+                    assert!(r.ev[2].k == K_U64 && r.ev[2].num == x);
+                } else {
+                    assert!(r.ev[2].k == K_NULL, "None is encoded as null, the entry stays");
+                }
+                assert!(r.ev[3].k == K_FIELD && str_eq(r.ev[3].s, "p") && r.ev[4].k == K_U64 && r.ev[4].num == p && r.ev[5].k == K_END);
+            }
+            Err(_) => assert!(false),
+        }
+        // query and the flat instantiate message
+        match (record(&op::QueryMsg::OptQ { o: o.map(|v| v as u32) }), record(&op::InstantiateMsg { o })) {
+            (Ok(q), Ok(i)) => {
+                assert!(q.n == 4 && str_eq(q.ev[0].s, "opt_q") && q.ev[0].num == 1 && str_eq(q.ev[1].s, "o"));
+                assert!(i.n == 4 && i.ev[0].k == K_STRUCT && i.ev[0].num == 1 && str_eq(i.ev[1].s, "o"));
+                assert!((q.ev[2].k == K_NULL) == !some && (i.ev[2].k == K_NULL) == !some);
+            }
+            _ => assert!(false),
+        }
+        // decoding: {o, p}, {p} (missing => None)
+        let with: Result<op::ExecMsg, E> = decode(Msg { name: "opt_arg", body: Obj { keys: ["o", "p"], vals: [num(x), num(p)] } });
+        let without: Result<op::ExecMsg, E> = decode(Msg { name: "opt_arg", body: Obj { keys: ["p"], vals: [num(p)] } });
+        assert!(matches!(&with, Ok(op::ExecMsg::OptArg { o: Some(a), p: b }) if *a == x && *b == p));
+        assert!(matches!(&without, Ok(op::ExecMsg::OptArg { o: None, p: b }) if *b == p));
+        kani::cover!(some);
+        kani::cover!(!some);
+        core::mem::forget((with, without));
     }
 
     // ---- (c) body dimension ----------------------------------------------------------------------
